@@ -82,6 +82,8 @@ def finalize(agg, tier):
         for name in ("big:1MiB", "big:k12-256-chunks"):
             if not c.get(name):
                 out.append("deciding counter %s is zero" % name)
+    if not c.get("decoy_objects"):
+        out.append("no neighbouring (decoy) MAC object was created")
     if c.get("oracle:disagree"):
         out.append("two reference oracles disagreed %d times" % c["oracle:disagree"])
     return out
@@ -243,6 +245,32 @@ def run(spec, ctx):
         ctx.inconclusive_reason("reference self-test failed: %r" % (e,))
         return
     globals()["w_" + spec["kind"]](spec, ctx, H)
+    ctx.count("decoy_objects", _DECOY["made"])
+    ctx.count("decoy_objects_failed", _DECOY["failed"])
+
+
+
+# ---------------------------------------------------------------------------
+# neighbouring ("decoy") objects: before every third keyed object that is judged, another object is created and used
+# through the library with the SAME key and one other parameter changed (hash function, cipher, tag length,
+# customisation, nonce).  Its result is discarded; the judged object is still compared with the model for its own
+# parameters, so anything the library remembers from one object to the next (pads, subkeys or states cached too
+# coarsely) becomes a wrong value.
+# ---------------------------------------------------------------------------
+_DECOY = {"n": 0, "made": 0, "failed": 0}
+
+
+def with_decoy(ctor, decoy):
+    def ctor2(data, style):
+        _DECOY["n"] += 1
+        if _DECOY["n"] % 3 == 0:
+            try:
+                decoy()
+                _DECOY["made"] += 1
+            except Exception:       # noqa  (key length the other algorithm does not take ...: irrelevant to any verdict)
+                _DECOY["failed"] += 1
+        return ctor(data, style)
+    return ctor2
 
 
 # ---------------------------------------------------------------------------
@@ -350,7 +378,13 @@ def blake2_adapter(which, dsize, key):
         if data is not None:
             kw["data"] = data
         return mod.new(**kw)
-    A["ctor"] = ctor
+
+    def decoy():
+        from Crypto.Hash import BLAKE2b, BLAKE2s
+        other = BLAKE2s if which == "b" else BLAKE2b
+        other.new(digest_bytes=min(dsize, 32), key=key[:32], data=b"decoy").digest()
+        mod.new(digest_bytes=(dsize % (64 if which == "b" else 32)) + 1, key=key, data=b"decoy").digest()
+    A["ctor"] = with_decoy(ctor, decoy) if key else ctor
     A["objnew"] = (lambda o, d: o.new(data=d)) if not key else None
     A["uad"] = lambda: mod.new(digest_bytes=dsize, key=key, update_after_digest=True)
     return A
@@ -784,7 +818,12 @@ def hmac_adapter(hname, key, H, default=False):
         if data is None:
             return HMAC.new(k, digestmod=dm)
         return HMAC.new(k, data, dm) if style & 1 else HMAC.new(k, msg=data, digestmod=dm)
-    A["ctor"] = ctor
+
+    def decoy():
+        from Crypto.Hash import SHA1, SHA256, SHA512, MD5, SHA3_256
+        for dm in {"sha256": (SHA1, SHA512), "sha1": (SHA256, MD5), "sha512": (SHA256, SHA3_256)}.get(hname, (SHA256, SHA512)):
+            HMAC.new(key, b"decoy", dm).digest()
+    A["ctor"] = with_decoy(ctor, decoy)
     return A
 
 
@@ -887,7 +926,16 @@ def cmac_adapter(cname, key, mac_len, ekl=None):
         if data is None:
             return CMAC.new(k, **kw)
         return CMAC.new(k, data, **kw) if style & 1 else CMAC.new(k, msg=data, **kw)
-    A["ctor"] = ctor
+
+    def decoy():
+        others = [m for m in (AES, Blowfish, CAST, ARC2, DES3) if m is not mod]
+        for m in others[:3]:
+            try:
+                CMAC.new(key, b"decoy", ciphermod=m).digest()
+            except ValueError:
+                pass
+        CMAC.new(key, b"decoy", ciphermod=mod, mac_len=4 if mac_len != 4 else 5, **({"cipher_params": {"effective_keylen": 40}} if cname == "arc2" else {})).digest()
+    A["ctor"] = with_decoy(ctor, decoy)
     return A
 
 
@@ -971,7 +1019,13 @@ def poly_adapter(cipher, key, nonce):
         if data is not None:
             kw["data"] = data
         return Poly1305.new(**kw)
-    A["ctor"] = ctor
+
+    def decoy():
+        from Crypto.Cipher import AES as _A, ChaCha20 as _C
+        om = _C if mod is _A else _A
+        Poly1305.new(key=key, cipher=om, nonce=bytes(16 if om is _A else 12), data=b"decoy").digest()
+        Poly1305.new(key=key, cipher=mod, nonce=bytes([nonce[0] ^ 1]) + bytes(nonce[1:]), data=b"decoy").digest()
+    A["ctor"] = with_decoy(ctor, decoy)
     return A
 
 
@@ -1395,7 +1449,14 @@ def kmac_adapter(bits, key, mac_len, custom, H):
         if data is not None:
             kw["data"] = data
         return mod.new(**kw)
-    A["ctor"] = ctor
+
+    def decoy():
+        from Crypto.Hash import KMAC128, KMAC256
+        om = KMAC256 if mod is KMAC128 else KMAC128
+        if len(key) >= 32:
+            om.new(key=key, mac_len=32, data=b"decoy").digest()
+        mod.new(key=key, mac_len=(mac_len or 64) + 8, custom=(custom or b"") + b"x", data=b"decoy").digest()
+    A["ctor"] = with_decoy(ctor, decoy)
 
     def objnew(o, d):       # obj.new() keeps mac_len; key and customisation are given again
         kw = {"key": key, "data": d}
